@@ -128,6 +128,13 @@ var byteAlphabet = []byte{0x00, 0xFF, 0x80, '-', '9', ' ', '\n', 'e', '.'}
 var tokenAlphabet = []string{"-1", "0", "1", "2", "255", "256", "2147483647", "2147483648", "4294967295", "9223372036854775807", "1e999", "nan", "", "x", "-0", "1000000"}
 var windowAlphabet = [][4]byte{{0, 0, 0, 0}, {0xFF, 0xFF, 0xFF, 0xFF}, {0x7F, 0xFF, 0xFF, 0xFF}, {0x80, 0, 0, 0}, {0xFF, 0xFF, 0xFF, 0x7F}, {0, 0, 0, 0x80}, {0, 0, 1, 0}, {0, 1, 0, 0}}
 
+// wordAlphabet: every keyword of the three text formats and all 16 PLY type
+// names - a header word corrupted into another *valid* word of the format.
+var wordAlphabet = []string{"char", "uchar", "short", "ushort", "int", "uint", "float", "double", "int8", "uint8", "int16", "uint16", "int32", "uint32", "float32", "float64",
+	"list", "property", "element", "vertex", "face", "vertex_index", "vertex_indices", "x", "red", "end_header", "comment", "ascii", "binary_little_endian", "binary_big_endian", "format", "ply",
+	"OFF", "solid", "endsolid", "facet", "outer", "loop", "endloop", "endfacet", "normal"}
+var wordRe = regexp.MustCompile(`[A-Za-z_][A-Za-z_0-9]*`)
+
 var tokenRe = regexp.MustCompile(`[0-9+\-.eE]*[0-9][0-9+\-.eE]*`)
 
 type caseDesc struct {
@@ -229,6 +236,24 @@ func forEachCase(files []corpusFile, thorough bool, f func(idx int, c caseDesc, 
 					}) {
 						return
 					}
+				}
+			}
+		}
+		// every word of the text part replaced by every keyword / type name
+		var words [][]int
+		if !cf.Binary {
+			words = wordRe.FindAllIndex(d, -1)
+		} else if limit > 0 {
+			words = wordRe.FindAllIndex(d[:limit], -1)
+		}
+		for wi, w := range words {
+			for a := range wordAlphabet {
+				w, a := w, a
+				if string(d[w[0]:w[1]]) == wordAlphabet[a] {
+					continue
+				}
+				if !emit(caseDesc{File: cf.Name, Kind: "word", Pos: wi, Alt: a}, func() []byte { return repl(d, w, wordAlphabet[a]) }) {
+					return
 				}
 			}
 		}
@@ -557,7 +582,7 @@ func main() {
 		r.Sample("replay")
 		r.Finish()
 	}
-	r.Rule("every prefix, every byte x {00,FF,80,'-','9',' ','\\n','e','.',bit-flip}, every numeric token x 16 boundary values, every 4-byte window x 8 patterns (binary files), every line deleted or duplicated, and in the thorough tier every pair of tokens x 8x8 values, of each of 15 minimal valid files (binary/ASCII STL, OFF, PLY ascii/little/big endian with lists and a zero-count element, segment CSV), fed to all 8 decoder entry points. " +
+	r.Rule("every prefix, every byte x {00,FF,80,'-','9',' ','\\n','e','.',bit-flip}, every numeric token x 16 boundary values, every 4-byte window x 8 patterns (binary files), every line deleted or duplicated, every header/text word x 41 keywords and type names, and in the thorough tier every pair of tokens x 8x8 values, of each of 15 minimal valid files (binary/ASCII STL, OFF, PLY ascii/little/big endian with lists and a zero-count element, segment CSV), fed to all 8 decoder entry points. " +
 		"non-trivial = mutated files whose header the format's reader still accepts, i.e. the fault landed in a field the decoder trusts; counted once per case")
 	r.Assume("allocation bound 1 MiB + 4 KiB per input byte (out of proportion = beyond any constant-factor expansion of the input); zero-progress bound 200 reads after end of input; 20 s watchdog per decoder call")
 	total := countCases(files, r.Thorough())
